@@ -352,7 +352,20 @@ impl Tracer {
                         // PTRACE_EVENT_STOP may be received first, and new tracee may be already registered at this point
                         if self.tracee_ctl.tracee_mut(new_thread_id).is_none() {
                             let new_tracee = self.tracee_ctl.add(new_thread_id);
-                            let new_trace_status = new_tracee.wait_one()?;
+                            let new_trace_status = match new_tracee.wait_one() {
+                                Ok(status) => Some(status),
+                                // the new thread may be reaped already: its stop, exit event and
+                                // exit status can all be consumed before the CLONE event of its parent
+                                Err(Waitpid(Errno::ECHILD)) => None,
+                                Err(e) => {
+                                    self.tracee_ctl.remove(new_thread_id);
+                                    return Err(e);
+                                }
+                            };
+                            let Some(new_trace_status) = new_trace_status else {
+                                self.tracee_ctl.remove(new_thread_id);
+                                return Ok(None);
+                            };
                             if matches!(new_trace_status, WaitStatus::Exited(_, _)) {
                                 // this situation can occur if the process has already completed
                                 self.tracee_ctl.remove(new_thread_id);
